@@ -27,7 +27,10 @@ def attrs(rnd):
     if rnd.random() < 0.3:
         a.append('id="%s"' % rnd.choice(IDS))
     if rnd.random() < 0.15:
-        a.append(rnd.choice(('colspan="3"', 'rowspan="2"', 'colspan="0"', 'colspan="x"', 'width="400"', 'align="right"', 'dir="rtl"')))
+        a.append(rnd.choice(('colspan="3"', 'rowspan="2"', 'colspan="0"', 'colspan="x"', 'width="400"', 'align="right"', 'dir="rtl"',
+                            'colspan="\u00b2"', 'rowspan="\u2461"', 'colspan="\u0663"', 'colspan="-1"', 'rowspan="2.5"', 'colspan=" 2 "',
+                            'colspan="1e3"', 'rowspan="99999999999"', 'colspan="\uff12"', 'colspan="\u00bd"', 'width="\u00b2"',
+                            'height="\u2461px"', 'border="\u00b2"', 'colspan=""', 'rowspan="+2"')))
     return (" " + " ".join(a)) if a else ""
 
 
@@ -130,6 +133,13 @@ FRAGMENTS = [
     lambda r: "<li>%s</li>" % words(r, 2),
     lambda r: "<td>%s</td><tr><td>x" % words(r, 2),
     lambda r: "<span style=\"display:none\">%s</span><div style=\"visibility:hidden\">%s</div>" % (words(r, 2), words(r, 2)),
+    lambda r: "== %s ==\n<references group=\"n\"/>\n<references/>%s" % (words(r, 1), r.choice(("", "\n<references/>", "\n" + words(r, 2)))),
+    # malformed HTML table pieces between the start of a table and its first row / between rows
+    lambda r: "{|\n%s\n|-\n| %s || %s\n|}" % (r.choice(("<table><tr>stray text</table>", "<tr>x", "<td>y</td>", "<table>", "</table>",
+                                                          "<caption>c", "<th>h<tr>", "stray text", "<div>d</div>", "<table><caption>q</table>")),
+                                                words(r, 1), words(r, 1)),
+    lambda r: "<table>%s<tr><td>%s</td></tr>%s</table>" % (r.choice(("stray", "<b>x</b>", "<table><tr>stray</table>", "<li>i", "<tr>")), words(r, 1),
+                                                            r.choice(("", "tail", "<td>z", "<table></table>"))),
     # the trigger attributes on every structural HTML element, not only on div/span/table
     lambda r: "<%s%s>%s</%s>" % ((lambda t: (t, attrs(r), "".join("<li%s>%s</li>" % (attrs(r) if r.random() < 0.3 else "", words(r, 2))
                                                            for _ in range(r.randint(1, 3))), t))(r.choice(("ul", "ol")))),
@@ -143,13 +153,66 @@ FRAGMENTS = [
 ]
 
 
+REPEATABLE = [
+    lambda r: "; %s : %s" % (words(r, 1), words(r, 2)),
+    lambda r: "; %s\n: %s" % (words(r, 1), words(r, 2)),
+    lambda r: "<u><center>%s</center></u>" % words(r, 1),
+    lambda r: "%s<br/>" % words(r, 1),
+    lambda r: "<i>%s\n\n%s</i>" % (words(r, 1), words(r, 1)),
+    lambda r: "<ref>%s</ref>" % words(r, 2),
+    lambda r: "<ref name=\"n%d\"/>" % r.randint(1, 3),
+    lambda r: "== %s ==\n<p>%s</p>" % (words(r, 1), words(r, 2)),
+    lambda r: "<b></b>",
+    lambda r: "{|\n| %s\n|}" % words(r, 1),
+    lambda r: "[[File:A%d.png|20px]]" % r.randint(1, 9),
+    lambda r: "[[Image:a.png|20px]]",
+    lambda r: "<span></span>",
+    lambda r: "''%s''" % words(r, 1),
+    lambda r: "<br/>",
+    lambda r: ":{|\n| %s\n|}" % words(r, 1),
+    lambda r: "* %s\n" % words(r, 1),
+    lambda r: "<div class=\"noprint\">%s</div>" % words(r, 1),
+    lambda r: "<li>%s</li>" % words(r, 1),
+    lambda r: "<references/>",
+]
+
+
+WIDE = [lambda r: "[[Image:a.png|20px]]", lambda r: "<span></span>", lambda r: "[[File:A%d.png|20px]]" % r.randint(1, 9),
+        lambda r: "<b></b>"]
+
+
+def repeated(rnd):
+    if rnd.random() < 0.2:
+        # a very long run of textless inline siblings (icon rows): breadth, not depth
+        f = rnd.choice(WIDE)
+        n = rnd.choice((1100, 1500))
+    else:
+        f = rnd.choice(REPEATABLE)
+        n = rnd.choice((101, 130, 260))
+    sep = rnd.choice(("\n", "\n\n", " ", "", "\n\n"))
+    body = sep.join(f(rnd) for _ in range(n))
+    if rnd.random() < 0.3:
+        body += rnd.choice(("<br/>", "\n\n", " ")) + words(rnd, 1)
+    x = rnd.random()
+    if x < 0.2:
+        return "{|\n|\n" + body + "\n|}"
+    if x < 0.35:
+        return "<div%s>\n%s\n</div>" % (attrs(rnd), body)
+    if x < 0.5:
+        return "== %s ==\n%s" % (words(rnd, 1), body)
+    return body
+
+
 def document(rnd, n=None):
     n = n or rnd.randint(1, 8)
     parts = []
     for _ in range(n):
         x = rnd.random()
         if x < 0.6:
-            parts.append(rnd.choice(FRAGMENTS)(rnd))
+            f = rnd.choice(FRAGMENTS)
+            parts.append(f(rnd))
+            if rnd.random() < 0.15:
+                parts.append(f(rnd))     # the same shape twice in a row
         elif x < 0.8:
             doc, text = grammar.make(rnd, maxwords=rnd.choice((10, 30)))
             parts.append(text)
